@@ -26,8 +26,11 @@ def gen_ops(rng, tids, lens, n_ops, exhaustive_alphabet=False):
             ops.append(['stepid', rng.choice(tids)])
         elif r < 0.7:
             ops.append(['stepidn', [rng.choice(tids)], k])
-        elif r < 0.8 and not single:
+        elif r < 0.75 and not single:
             ops.append(['stepidn', list(tids) if rng.random() < 0.7 else [tids[1], tids[0]], k])
+        elif r < 0.8 and not single:
+            # the amount is an expression over the position of the first-named trace: it is evaluated once, before any trace moves
+            ops.append(['stepexpr', list(tids) if rng.random() < 0.5 else [tids[1], tids[0]], rng.choice([0, 1, 2])])
         elif r < 0.9 and single:
             ops.append(['setindex', rng.randint(-2, nmax + 2)] if rng.random() < 0.7 else ['setindexall', rng.randint(-2, nmax + 2)])
         elif r < 0.9:
@@ -51,6 +54,8 @@ def op_text(op):
         return '(step ' + ' '.join(f'"{t}"' for t in op[1]) + f' {op[2]})'
     if k == 'stepsym':
         return '(step ' + ' '.join(op[1]) + f' {op[2]})'
+    if k == 'stepexpr':
+        return '(step ' + ' '.join(f'"{t}"' for t in op[1]) + f' (- {op[2]} {op[1][0]}^INDEX))'
     if k == 'setindex':
         return f'(set-index {op[1]})'
     if k == 'setindexall':
@@ -168,6 +173,10 @@ class C02(framework.PropertyCheck):
                     else:
                         amt = {t0: i - idx[t0]}
                 targets = list(idx)
+            elif kind == 'stepexpr':
+                a0 = op[2] - idx[op[1][0]]
+                amt = {t: a0 for t in op[1]}
+                targets = op[1]
             elif kind == 'stepid':
                 amt = {op[1]: 1}
                 targets = [op[1]]
